@@ -1228,7 +1228,7 @@ def main():
                 for op in (A.CW + A.CO if not quick else A.CO):
                     go([w1, op], EVERY, 'every')
         # (4) seeded random histories of length 3..6, writes twice as likely as observers
-        n = 300 if quick else 2000
+        n = 300 if quick else 1200
         for _ in range(n):
             ln = rnd.randint(3, 6)
             hist = []
